@@ -436,7 +436,10 @@ class NearestNeighborModel(Model):
 
         """
         if self.lat.bc_MPS == 'infinite':
-            return psi.expectation_value(self.H_bond, axes=(['p0', 'p1'], ['p0*', 'p1*']))
+            # H_bond[i] acts on sites (i-1, i), but `expectation_value` applies ``ops[j % L]`` on sites (j, j+1)
+            L = len(self.H_bond)
+            H_bond = list(self.H_bond[1:]) + list(self.H_bond[:1])
+            return psi.expectation_value(H_bond, sites=list(range(-1, L - 1)), axes=(['p0', 'p1'], ['p0*', 'p1*']))
         # else
         return psi.expectation_value(self.H_bond[1:], axes=(['p0', 'p1'], ['p0*', 'p1*']))
 
